@@ -44,10 +44,12 @@ MK(m) == <<m.proto, m.kind>>
 \* finding key: protocol / message kind / emitting hook - responder view at the time; "-before-sent" marks the
 \* case that an earlier message of the same protocol is still unconfirmed (the initiator's own state lags);
 \* "-reemitted" that more block-fetch / leios-fetch requests were emitted than the application ever commanded
-\* (the same request went out again).  The qualifiers only make keys specific, they never decide a violation.
-FindingKey(pr, kind, visitor, st, lag, re) ==
+\* (the same request went out again); "-same-pass" that an earlier message of the same protocol to the same peer
+\* was emitted within the very same step (one housekeeping pass / one command), i.e. the duplicate does not even need
+\* a second pass before the confirmation.  The qualifiers only make keys specific, they never decide a violation.
+FindingKey(pr, kind, visitor, st, lag, re, same) ==
   pr \o "/" \o kind \o "/" \o visitor \o "-in-" \o st \o (IF lag THEN "-before-sent" ELSE "")
-     \o (IF re THEN "-reemitted" ELSE "")
+     \o (IF re THEN "-reemitted" ELSE "") \o (IF same THEN "-same-pass" ELSE "")
 
 IsFetchRequest(m) == m.proto = "leiosfetch" /\ m.kind \in {"BlockRequest", "BlockTxsRequest"}
 IsRangeRequest(m) == m.proto = "blockfetch" /\ m.kind = "RequestRange"
@@ -93,7 +95,8 @@ EnvEffect(M, e) ==
     [] OTHER -> M
 
 -----------------------------------------------------------------------------
-(* emissions of one step, in order; returns [M |-> monitor, nb |-> new violation classes] *)
+(* emissions of one step, in order; accumulator [M |-> monitor, nb |-> new violation classes,     *)
+(* step |-> <<peer, protocol>> pairs already emitted to in this step]                           *)
 \* bookkeeping of commanded vs emitted requests (independent of the connection state)
 Spend(M, o) ==
   IF o.t = "send" /\ o.p \in Peers /\ IsFetchRequest(o.m) THEN [M EXCEPT !.fcredit[o.p] = IF @ > 0 THEN @ - 1 ELSE 0]
@@ -109,13 +112,14 @@ EmitOne(R, evk, o) ==
     LET pr == o.m.proto
         st == M.view[o.p][pr]
         M1 == [M EXCEPT !.unconf[o.p] = Append(@, MK(o.m))]
-    IN IF pr \in M.broken[o.p] THEN [R EXCEPT !.M = M1]
+    IN IF pr \in M.broken[o.p] THEN [R EXCEPT !.M = M1, !.step = @ \cup {<<o.p, pr>>}]
        ELSE IF ClientMay(pr, st, o.m.kind)
-            THEN [R EXCEPT !.M = [M1 EXCEPT !.view[o.p][pr] = SpecNext(pr, st, o.m.kind)]]
+            THEN [R EXCEPT !.M = [M1 EXCEPT !.view[o.p][pr] = SpecNext(pr, st, o.m.kind)], !.step = @ \cup {<<o.p, pr>>}]
             ELSE [M  |-> [M1 EXCEPT !.broken[o.p] = @ \cup {pr}],
                   nb |-> R.nb \cup {FindingKey(pr, o.m.kind, Visitor(evk), st,
                                                 \E i \in DOMAIN M.unconf[o.p] : M.unconf[o.p][i][1] = pr,
-                                                Uncommanded(R.M, o))}]
+                                                Uncommanded(R.M, o), <<o.p, pr>> \in R.step)},
+                  step |-> R.step \cup {<<o.p, pr>>}]
   ELSE [R EXCEPT !.M = M]
 
 RECURSIVE EmitAll(_, _, _, _)
@@ -125,7 +129,7 @@ EmitAll(R, evk, out, i) == IF i > Len(out) THEN R ELSE EmitAll(EmitOne(R, evk, o
 MonResult(M, e, out) ==
   IF M.tainted THEN [M |-> M, nb |-> {}]
   ELSE IF ~EnvOK(M, e) THEN [M |-> [M EXCEPT !.tainted = TRUE], nb |-> {}]
-  ELSE EmitAll([M |-> EnvEffect(M, e), nb |-> {}], e.ev, out, 1)
+  ELSE LET R == EmitAll([M |-> EnvEffect(M, e), nb |-> {}, step |-> {}], e.ev, out, 1) IN [M |-> R.M, nb |-> R.nb]
 
 MonStep(e, out) ==
   LET R == MonResult(mon, e, out) IN mon' = R.M /\ bad' = bad \cup R.nb
